@@ -51,6 +51,11 @@ var verifC14StmtSrc = []string{
 	`execute 'select ' || @s2;`,
 	`var @cmd := 'select a from t'; execute @cmd; execute @cmd;`,
 	`echo @s; print @s; printf '%s', @s;`,
+	// statements that hand a value to the environment, the flags or the output
+	`set @%VERIF_X = @s; set @%VERIF_Y = @s || @t; set @%VERIF_Z = ident; select @%VERIF_Y;`,
+	`set @@datetime_format = @s; set @@wait_timeout = @f + 20; set @@cpu = @i;`,
+	`var @w := @s; @w := @t; select @w, @s;`,
+	`declare c cursor for select a, b from t; open c; var @x, @y; fetch c into @x, @y; close c; dispose cursor c; select @x;`,
 }
 
 func VerifC14Setup() {
@@ -189,7 +194,7 @@ func VerifC14Statements() {
 	st.unchanged("after the first run")
 	// second run: for programs that declare something, only the last statement is repeated
 	again := prog
-	if pi == 2 || pi == 3 || pi == 9 {
+	if pi == 2 || pi == 3 || pi == 9 || pi == 13 || pi == 14 {
 		again = prog[len(prog)-1:]
 	}
 	if s2, err := scope.GetVariable(parser.Variable{Name: "s2"}); true {
